@@ -95,8 +95,13 @@ Definition value_eqb (a b : value) : bool :=
   | _, _ => false
   end.
 
+(* equality of dictionaries as maps (both sides have distinct keys: a Python dict / canon / fill over
+   distinct names): same size and every binding of a is a binding of b.  The ORDER of the bindings is
+   not compared: the order of a keyword table or of constructor parameters carries no meaning. *)
 Definition dict_eqb (a b : dict) : bool :=
-  list_eqb (fun x y => str_eqb (fst x) (fst y) && value_eqb (snd x) (snd y)) a b.
+  Nat.eqb (List.length a) (List.length b)
+  && forallb (fun kv => match get (fst kv) b with Some v => value_eqb (snd kv) v | None => false end) a
+  && nodupb (map fst a) && nodupb (map fst b).
 
 Definition obs_agree (model impl : obs) : bool :=
   match model, impl with
